@@ -2,6 +2,7 @@
 branch merging at `if`, loop cutting by invariants, modular calls through contracts)."""
 from __future__ import annotations
 import ast, builtins, z3
+import sys
 from .core import *
 from . import core
 from . import objects as O
@@ -61,7 +62,9 @@ class Unbound:
 
 
 class LoopSpec:
-    def __init__(self, inv, modifies_heap=True, label=None, extra_vars=(), frame_except=None):
+    def __init__(self, inv, modifies_heap=True, label=None, extra_vars=(), frame_except=None, ghost=(), havoc_hook=None):
+        self.ghost = tuple(ghost)         # names in st.ghost (z3-valued ghost variables) the loop body may change: havocked like locals
+        self.havoc_hook = havoc_hook
         self.frame_except = frame_except  # callable(ctx) -> list of refs (V) that the loop may modify; every other
         #                                   object that existed at loop entry is proved unchanged by each iteration
         self.inv = inv                    # callable(ctx) -> z3 Bool  | list of (name, callable)
@@ -695,7 +698,61 @@ class Interp:
                 raise OutsideSubset(f"while loop at line {s.lineno} needs an invariant")
             self.exec_block(s.orelse, env)
             return
-        raise OutsideSubset("while with invariant not implemented")
+        self._while_inductive(s, env, spec)
+
+    def _while_inductive(self, s, env, spec):
+        """while loop against an inductive invariant: init / step obligations, framed havoc of what the body may change;
+        the code after the loop is continued from an arbitrary state satisfying invariant and negated test
+        (or from a `break`, on the path where it happens)"""
+        st = self.st
+        label = spec.label or f"{env.func.qual if env.func else '?'}/loop@{s.lineno}"
+        entry = {"vars": {k: v for e in reversed(list(env.chain())) for k, v in e.vars.items()}, "h": st.h.copy(), "nalloc": st.nalloc}
+        ctx0 = LoopCtx(self, st, env, None, None, entry)
+        for nm, f in _inv_list(spec.inv):
+            self.spec.oblige(self, f"{label}/init/{nm}", f(ctx0))
+        for nm in sorted(self._assigned_names(s.body) | set(spec.extra_vars)):
+            cur, ok = env.lookup(nm)
+            if ok and is_v(cur):
+                env.assign(nm, fresh("hv_" + nm))
+            elif ok and cur is not Unbound:
+                raise OutsideSubset(f"loop modifies host-valued variable {nm}")
+        for nm in spec.ghost:
+            if nm in st.ghost and isinstance(st.ghost[nm], z3.ExprRef):
+                st.ghost[nm] = fresh("gh_" + nm, st.ghost[nm].sort())
+        allowed, iter_h = None, None
+        if spec.modifies_heap is not False:
+            st.nalloc += 1000
+            st.h = _havoc_heap(st.h, f"W{s.lineno}", st.nalloc)
+            if callable(spec.modifies_heap):
+                st.assume(spec.modifies_heap(LoopCtx(self, st, env, None, None, entry)))
+            if spec.frame_except is not None:
+                allowed = spec.frame_except(LoopCtx(self, st, env, None, None, entry))
+                st.h = _framed_havoc(entry["h"], st.h, entry["nalloc"], allowed)
+                iter_h = st.h.copy()
+        ctx = LoopCtx(self, st, env, None, None, entry)
+        for nm, f in _inv_list(spec.inv):
+            st.assume(f(ctx))
+        if spec.havoc_hook is not None:
+            spec.havoc_hook(ctx)
+        if st.decide(self.truthy(self.ev(s.test, env)), f"while@{s.lineno}"):
+            try:
+                self.exec_block(s.body, env)
+            except _Break:
+                return
+            except _Continue:
+                pass
+            ctx1 = LoopCtx(self, st, env, None, None, entry)
+            for nm, f in _inv_list(spec.inv):
+                goal = f(ctx1)
+                parts = goal.children() if z3.is_and(goal) else [goal]
+                for k_, part in enumerate(parts):
+                    self.spec.oblige(self, f"{label}/step/{nm}" + (f"#{k_}" if len(parts) > 1 else ""), part)
+            if spec.modifies_heap is False:
+                self.spec.oblige(self, f"{label}/step/heap-unchanged", frame_eq(entry["h"], st.h, entry["nalloc"]))
+            elif spec.frame_except is not None:
+                self.spec.oblige(self, f"{label}/step/frame", frame_eq(iter_h, st.h, entry["nalloc"], allowed))
+            raise PathEnd()
+        self.exec_block(s.orelse, env)
 
     def x_For(self, s, env):
         it = self.ev(s.iter, env)
@@ -746,6 +803,9 @@ class Interp:
                 env.assign(nm, fresh("hv_" + nm))
             elif ok and cur is not Unbound:
                 raise OutsideSubset(f"loop modifies host-valued variable {nm}")
+        for nm in spec.ghost:
+            if nm in st.ghost and isinstance(st.ghost[nm], z3.ExprRef):
+                st.ghost[nm] = fresh("gh_" + nm, st.ghost[nm].sort())
         if spec.modifies_heap is not False:
             old_h = st.h
             st.nalloc += 1000
@@ -852,6 +912,17 @@ class Interp:
         cond = z3.BoolVal(False)
         for c in cands:
             c = self.lower(c)
+            if isinstance(c, O.HExt):
+                # an exception class of the standard library (queue.Empty, json.JSONDecodeError ...): its real class object
+                # gives the base classes
+                import importlib
+                modname, _, attr = c.dotted.rpartition(".")
+                try:
+                    pc = getattr(importlib.import_module(modname), attr)
+                except Exception:
+                    pc = None
+                if isinstance(pc, type) and issubclass(pc, BaseException) and modname.split(".")[0] in sys.stdlib_module_names:
+                    c = O.builtin_class(pc)
             if not isinstance(c, O.ClassInfo):
                 raise OutsideSubset("except clause with non-class")
             cond = z3.Or(cond, self.cid_issub(exc.cid, c))
